@@ -33,6 +33,10 @@ var codecRace = []string{`^io/`, `^internal/convert/`, `^rpc/core/.*codec`}
 var transportRace = []string{`^rpc/socket/`, `^rpc/udp/`, `^rpc/websocket/`, `^rpc/http/`, `^rpc/mock/`, `^rpc/core/`}
 
 var props = map[string]propCfg{
+	"C09": {Pkg: "checks/c09", Level: "exploration", Passes: []pass{
+		{Name: "plain", Shards: 16, TimeoutS: 900, CaseTimeoutS: 300},
+		{Name: "race", Race: true, Shards: 16, TimeoutS: 1500, CaseTimeoutS: 600, Env: []string{"VERIF_LIGHT=1"}},
+	}, RaceFiles: append([]string{`^rpc/plugins/reverse/`}, transportRace...)},
 	"C13": {Pkg: "checks/c13", Level: "exploration", Passes: []pass{
 		{Name: "plain", Shards: 16, TimeoutS: 900, CaseTimeoutS: 240},
 		{Name: "fasthttp-client", Shards: 8, TimeoutS: 900, CaseTimeoutS: 240, Env: []string{"VERIF_FASTHTTP=1"}},
